@@ -3,62 +3,72 @@
    not empty and load_item with fuel g reads it back as the element's normal form.  By induction on g. *)
 From AP.Model Require Import Prelude Bytes Vocab Pred Url IriEq Nlv Json Text Equal Coll Dispatch Layout JsonTables JsonLeaf
      JsonEnc JsonTree JsonCheck JsonDec JsonNorm JsonRoundCheck.
-From AP.Proofs Require Import NlvP TextP C01NumP C01TimeP C01StrP C01TreeP C01ParseP C01TreeWfP C01FlatP C01ItemP C01FieldP AsIriP.
+From AP.Proofs Require Import NlvP TextP C01NumP C01TimeP C01StrP C01TreeP C01ParseP C01TreeWfP C01FlatP C01ItemP C01FieldP C01LeafP AsIriP.
 Local Open Scope nat_scope.
 
-(* ------------------------------------------------------------------ small list facts *)
-Lemma nodup_bytes_NoDup l : nodup_bytes l = true -> NoDup l.
-Proof.
-  induction l as [|x r IH]; intros H; [constructor|]. cbn [nodup_bytes] in H. apply andb_true_iff in H. destruct H as [H1 H2].
-  constructor; [|exact (IH H2)]. intros Hin. apply negb_true_iff in H1.
-  assert (existsb (bytes_eqb x) r = true) by (apply existsb_exists; exists x; split; [exact Hin|apply bytes_eqb_refl]). congruence.
-Qed.
+(* ------------------------------------------------------------------ depth tags of the flattened write tables *)
+Section FlatDepth.
+  Variable jw_tables : list (bytes * bool * list wstmt).
 
-Lemma nodup_fid_NoDup l : nodup_fid_list l = true -> NoDup l.
-Proof.
-  induction l as [|x r IH]; intros H; [constructor|]. cbn [nodup_fid_list] in H. apply andb_true_iff in H. destruct H as [H1 H2].
-  constructor; [|exact (IH H2)]. intros Hin. apply negb_true_iff in H1.
-  assert (existsb (fid_beq x) r = true) by (apply existsb_exists; exists x; split; [exact Hin|apply fid_beq_refl]). congruence.
-Qed.
+  (* the body of flatten_wd, with the depth tag and the callee as parameters *)
+  Section Body.
+    Variable d : nat.
+    Variable rec : bytes -> option (list (nat * wflat)).
+    Fixpoint flat_body (l : list wstmt) : option (list (nat * wflat)) :=
+      match l with
+      | [] => Some []
+      | WProp t w p v g AccOther _ :: _ => None
+      | WProp t w p v g _ _ :: r =>
+          match flat_body r with Some rs => Some ((d, mkwf t w p v g) :: rs) | None => None end
+      | WDelegate _ [] _ _ :: r => flat_body r
+      | WDelegate _ fn AccOther _ :: _ => None
+      | WDelegate _ fn _ _ :: r =>
+          match rec fn, flat_body r with
+          | Some a, Some b => Some (a ++ b)
+          | _, _ => None
+          end
+      | WUnrecognised _ _ :: _ => None
+      end.
+  End Body.
 
-Lemma getf_replf f x acc f' : getf f' (replf f x acc) = if fid_beq f' f then Some x else getf f' acc.
-Proof.
-  induction acc as [|[g0 w] r IH].
-  - cbn [replf getf]. destruct (fid_beq f' f); reflexivity.
-  - cbn [replf]. destruct (fid_beq f g0) eqn:E.
-    + apply fid_beq_eq in E. subst g0. cbn [getf]. destruct (fid_beq f' f); reflexivity.
-    + cbn [getf]. destruct (fid_beq f' g0) eqn:E2.
-      * apply fid_beq_eq in E2. subst g0. destruct (fid_beq f' f) eqn:E3; [|reflexivity].
-        apply fid_beq_eq in E3. subst f'. rewrite fid_beq_refl in E. discriminate.
-      * exact IH.
-Qed.
+  Lemma flatten_wd_unfold n name : flatten_wd jw_tables (S n) name =
+    match jw_table jw_tables name with None => None | Some (_, stmts) => flat_body n (flatten_wd jw_tables n) stmts end.
+  Proof. reflexivity. Qed.
 
-Lemma getf_map (h : fval -> fval) f fs : getf f (map (fun p => (fst p, h (snd p))) fs) = option_map h (getf f fs).
-Proof.
-  induction fs as [|[g0 w] r IH]; [reflexivity|]. cbn [map getf fst snd]. destruct (fid_beq f g0); [reflexivity|exact IH].
-Qed.
+  Definition bump (de : nat * wflat) : nat * wflat := (S (fst de), snd de).
 
-Lemma getf_in f v fs : getf f fs = Some v -> In (f, v) fs.
-Proof.
-  induction fs as [|[g0 w] r IH]; [discriminate|]. cbn [getf]. destruct (fid_beq f g0) eqn:E.
-  - apply fid_beq_eq in E. subst g0. intros H. inversion H. left. reflexivity.
-  - intros H. right. exact (IH H).
-Qed.
+  Lemma flat_body_S d rec rec' : (forall fn l, rec fn = Some l -> rec' fn = Some (map bump l)) ->
+    forall stmts l, flat_body d rec stmts = Some l -> flat_body (S d) rec' stmts = Some (map bump l).
+  Proof.
+    intros Hrec. induction stmts as [|s r IH]; intros l H.
+    - inversion H. reflexivity.
+    - destruct s as [t w p v g acc pos|on fn acc pos|src pos]; [| |discriminate H].
+      + cbn [flat_body] in H |- *. destruct acc; try discriminate H;
+          (destruct (flat_body d rec r) as [rs|] eqn:Er; [|discriminate H]); inversion H; subst l;
+          rewrite (IH rs eq_refl); reflexivity.
+      + cbn [flat_body] in H |- *. destruct fn as [|c fn']; [exact (IH l H)|].
+        destruct acc; try discriminate H;
+          (destruct (rec (c :: fn')) as [a|] eqn:Ea; [|discriminate H]);
+          (destruct (flat_body d rec r) as [b|] eqn:Er; [|discriminate H]); inversion H; subst l;
+          rewrite (Hrec _ _ Ea), (IH b eq_refl), map_app; reflexivity.
+  Qed.
 
-Lemma canon_ext layout_of k a b : (forall d, In d (layout_of k) -> getf (fd_fid d) a = getf (fd_fid d) b) ->
-  canon_fields layout_of k a = canon_fields layout_of k b.
-Proof.
-  unfold canon_fields. induction (layout_of k) as [|d r IH]; intros H; [reflexivity|]. cbn [flat_map].
-  rewrite (H d (or_introl eq_refl)), IH; [reflexivity|]. intros d' Hd'. apply H. right. exact Hd'.
-Qed.
+  Lemma flatten_wd_S : forall n name l, flatten_wd jw_tables n name = Some l ->
+    flatten_wd jw_tables (S n) name = Some (map bump l).
+  Proof.
+    induction n as [|n IH]; intros name l H; [discriminate|].
+    rewrite flatten_wd_unfold in H. rewrite flatten_wd_unfold.
+    destruct (jw_table jw_tables name) as [[init stmts]|]; [|discriminate].
+    exact (flat_body_S n (flatten_wd jw_tables n) (flatten_wd jw_tables (S n)) (fun fn l0 => IH fn l0) stmts l H).
+  Qed.
+End FlatDepth.
 
-Lemma size_in_fields_le (fs : list (fid * fval)) f v : In (f, v) fs ->
-  fval_size v <= (fix go (fs : list (fid * fval)) : nat := match fs with [] => 0 | (_, v) :: r => fval_size v + go r end) fs.
-Proof. induction fs as [|[f0 v0] r IH]; intros H; [destruct H|]. destruct H as [E|H]; [inversion E; subst; lia|]. specialize (IH H). lia. Qed.
-
-Lemma size_items_lt p (l : list item) z : In z l -> item_size z < item_size (IItems p (Some l)).
+Lemma fdepth_fields_bound (fs : list (fid * fval)) n : (forall f v, In (f, v) fs -> fdepth_v v <= n) ->
+  (fix go (l : list (fid * fval)) : nat := match l with [] => O | (_, v) :: r => Nat.max (fdepth_v v) (go r) end) fs <= n.
 Proof.
-  intros H. cbn [item_size]. induction l as [|y r IH]; [destruct H|]. destruct H as [<-|H]; [lia|]. specialize (IH H). lia.
+  induction fs as [|[f0 v0] r IH]; intro H; [lia|]. pose proof (H f0 v0 (or_introl eq_refl)).
+  assert ((fix go (l : list (fid * fval)) : nat := match l with [] => O | (_, v) :: r => Nat.max (fdepth_v v) (go r) end) r <= n)
+    by (apply IH; intros f v Hin; apply (H f v); right; exact Hin). lia.
 Qed.
 
 Section Round.
@@ -82,207 +92,14 @@ Section Round.
     unfold kinds_ok in Htables. rewrite forallb_forall in Htables. apply Htables. destruct k; simpl; tauto.
   Qed.
 
-  (* the fields of a well-formed object *)
-  Lemma wf_fields k (fs : list (fid * fval)) :
-    (fix go (l : list (fid * fval)) : bool :=
-       match l with
-       | [] => true
-       | (f, v) :: r => match decl_of layout_of k f with Some d => wfv (fd_type d) v | None => false end && go r
-       end) fs = true ->
-    forall f v, In (f, v) fs -> exists d, decl_of layout_of k f = Some d /\ wfv (fd_type d) v = true.
-  Proof.
-    induction fs as [|[f0 v0] r IH]; intros H f v Hin; [destruct Hin|]. apply andb_true_iff in H. destruct H as [H1 H2].
-    destruct Hin as [E|Hin]; [|exact (IH H2 f v Hin)]. inversion E; subst.
-    destruct (decl_of layout_of k f) as [d|]; [|discriminate]. exists d. split; [reflexivity|exact H1].
-  Qed.
-
-  Lemma fdepth_fields (fs : list (fid * fval)) f v : In (f, v) fs ->
-    fdepth_v v <= (fix go (l : list (fid * fval)) : nat := match l with [] => O | (_, v) :: r => Nat.max (fdepth_v v) (go r) end) fs.
-  Proof.
-    induction fs as [|[f0 v0] r IH]; intros H; [destruct H|]. destruct H as [E|H]; [inversion E; subst; lia|]. specialize (IH H). lia.
-  Qed.
-
-  Lemma norm_fields_fix (fs : list (fid * fval)) :
-    (fix go (fs : list (fid * fval)) : list (fid * fval) :=
-       match fs with [] => [] | (f, v) :: r => (f, nrmv v) :: go r end) fs = norm_fields layout_of fs.
-  Proof. induction fs as [|[f v] r IH]; [reflexivity|]. cbn [norm_fields map fst snd]. rewrite IH. reflexivity. Qed.
-
-  Lemma norm_obj p k fs : nrm (IObj p k fs) = IObj true k (canon_fields layout_of k (norm_fields layout_of fs)).
-  Proof.
-    change (nrm (IObj p k fs)) with
-      (IObj true k (canon_fields layout_of k
-         ((fix go (fs : list (fid * fval)) : list (fid * fval) :=
-             match fs with [] => [] | (f, v) :: r => (f, nrmv v) :: go r end) fs))).
-    rewrite norm_fields_fix. reflexivity.
-  Qed.
-
-  Lemma coll_go_term (t_i : item -> option (option fjv)) term l : forall acc t' o r,
-      (fix go (l : list item) (acc : list fjv) : option (bytes * option fjv * bool) :=
-          match l with
-          | [] => Some (term, Some (FArr (rev acc)), true)
-          | i :: r => match t_i i with
-                      | Some None => go r acc
-                      | Some (Some t) => go r (t :: acc)
-                      | None => None
-                      end
-          end) l acc = Some (t', o, r) -> t' = term.
-  Proof.
-    induction l as [|i0 r0 IH]; intros acc t' o r H.
-    - inversion H. reflexivity.
-    - cbv beta iota fix in H. destruct (t_i i0) as [[t0|]|]; [exact (IH _ _ _ _ H)|exact (IH _ _ _ _ H)|discriminate].
-  Qed.
-
-  (* who owns a written member *)
-  Lemma value_term t_i t_run writer via term v t' o r :
-    t_value t_i t_run writer via term v = Some (t', o, r) ->
-    t' = term \/ (bytes_eqb writer (B "JSONWriteNaturalLanguageProp") = true /\ t' = term ++ B "Map").
-  Proof.
-    unfold t_value.
-    destruct (bytes_eqb writer (B "JSONWriteItemProp")).
-    { destruct v as [[i|l| | | | | | | | | | | ]|]; try discriminate.
-      - destruct (t_i i); [|discriminate]. intros H. inversion H. left. reflexivity.
-      - destruct (t_i (IItems false l)); [|discriminate]. intros H. inversion H. left. reflexivity.
-      - intros H. inversion H. left. reflexivity. }
-    destruct (bytes_eqb writer (B "JSONWriteItemCollectionProp")).
-    { destruct v as [[i|[[|x l]|]| | | | | | | | | | | ]|]; try discriminate; try (intros H; inversion H; left; reflexivity).
-      intros H. left. exact (coll_go_term t_i term (x :: l) [] _ _ _ H). }
-    destruct (bytes_eqb writer (B "JSONWriteNaturalLanguageProp")) eqn:En.
-    { destruct v as [[i|l|[l|]| | | | | | | | | | ]|]; try discriminate; intros H; inversion H; try (left; reflexivity).
-      destruct (Nat.ltb 1 (length l)); [right; split; reflexivity|left; reflexivity]. }
-    destruct (bytes_eqb writer (B "JSONWriteProp")).
-    { destruct v as [[i|l|l|s| | | | | | |mt c|[e|]|id o' p]|]; try discriminate; try (intros H; inversion H; left; reflexivity).
-      - destruct (bytes_eqb via (B "MarshalJSON:ID") || bytes_eqb via (B "MarshalJSON:IRI")
-                  || bytes_eqb via (B "MarshalJSON:ActivityVocabularyType") || bytes_eqb via (B "MarshalJSON:MimeType")
-                  || bytes_eqb via (B "json.Marshal")); [|discriminate]. intros H. inversion H. left. reflexivity.
-      - destruct (t_struct t_run (B "Source_MarshalJSON") (source_fields mt c)); [|discriminate]. intros H. inversion H. left. reflexivity.
-      - destruct (t_struct t_run (B "Endpoints_MarshalJSON") (endpoints_fields e)); [|discriminate]. intros H. inversion H. left. reflexivity.
-      - destruct (t_struct t_run (B "PublicKey_MarshalJSON") (pubkey_fields id o' p)); [|discriminate]. intros H. inversion H. left. reflexivity. }
-    destruct (bytes_eqb writer (B "JSONWriteTimeProp")).
-    { destruct v as [[ | | | |t0| | | | | | | | ]|]; try discriminate. destruct (time_writable t0); intros H; inversion H; left; reflexivity. }
-    destruct (bytes_eqb writer (B "JSONWriteDurationProp")).
-    { destruct v as [[ | | | | |d| | | | | | | ]|]; try discriminate. destruct (fmt_xsd_duration d); [|discriminate]. intros H. inversion H. left. reflexivity. }
-    destruct (bytes_eqb writer (B "JSONWriteIntProp")); [intros H; inversion H; left; reflexivity|].
-    destruct (bytes_eqb writer (B "JSONWriteFloatProp")); [intros H; inversion H; left; reflexivity|].
-    destruct (bytes_eqb writer (B "JSONWriteBoolProp")); [intros H; inversion H; left; reflexivity|].
-    destruct (bytes_eqb writer (B "JSONWriteStringProp")).
-    { destruct v as [[ | | |s| | | | | | | | | ]|]; try discriminate; intros H; inversion H; left; reflexivity. }
-    destruct (bytes_eqb writer (B "JSONWriteIRIProp")).
-    { destruct v as [[ | | |[|c s]| | | | | | | | | ]|]; try discriminate; intros H; inversion H; left; reflexivity. }
-    discriminate.
-  Qed.
-
-  Lemma entry_out_keys t_i d fs e o : entry_out jw_tables t_i d fs e = Some o -> forall kv, In kv o -> In (fst kv) (keys_of e).
-  Proof.
-    unfold entry_out. destruct (eval_guards fs [x30] (filter nonval (wf_guards e))) as [[|]|]; [| |discriminate].
-    - destruct (t_value t_i (t_run_table jw_tables d t_i) (wf_writer e) (wf_via e) (wf_term e) (path_get (wf_path e) fs))
-        as [[[t' ov] r0]|] eqn:Ev; [|discriminate].
-      destruct (eval_guards fs (guard_bytes ov) (wf_guards e)) as [[|]|]; [| |discriminate].
-      + intros H kv Hin. inversion H; subst. destruct ov as [tv|]; [|destruct Hin]. destruct Hin as [<-|[]]. cbn [fst].
-        unfold keys_of, is_nlv_writer. destruct (value_term _ _ _ _ _ _ _ _ _ Ev) as [->|[Hn ->]].
-        * destruct (bytes_eqb (wf_writer e) _); left; reflexivity.
-        * rewrite Hn. right. left. reflexivity.
-      + intros H kv Hin. inversion H; subst. destruct Hin.
-    - intros H kv Hin. inversion H; subst. destruct Hin.
-  Qed.
-
-  Lemma outs_forall2 t_i fs esd os : outs_of jw_tables t_i fs esd os ->
-    Forall2 (fun e o => forall kv, In kv o -> In (fst kv) (keys_of e)) (map snd esd) os.
-  Proof.
-    intros H. induction H as [|de o es os He Hr IH]; [constructor|]. cbn [map]. constructor; [|exact IH].
-    exact (entry_out_keys _ _ _ _ _ He).
-  Qed.
-
-  Lemma outs_nth t_i fs esd os : outs_of jw_tables t_i fs esd os -> forall i de, nth_error esd i = Some de ->
-    exists o, nth_error os i = Some o /\ entry_out jw_tables t_i (fst de) fs (snd de) = Some o.
-  Proof.
-    intros H. induction H as [|de0 o es os He Hr IH]; intros i de Hi; [destruct i; discriminate|].
-    destruct i as [|i].
-    - inversion Hi; subst. exists o. split; [reflexivity|exact He].
-    - exact (IH i de Hi).
-  Qed.
-
-  Lemma keys_plain e : key_plain (wf_term e) = true -> forall k0, In k0 (keys_of e) -> key_plain k0 = true.
-  Proof.
-    intros H k0. unfold keys_of. destruct (is_nlv_writer e).
-    - intros [<-|[<-|[]]]; [exact H|]. unfold key_plain in *. rewrite forallb_app, H. reflexivity.
-    - intros [<-|[]]. exact H.
-  Qed.
-
-  (* ---------------------------------------------------------------- the fold over the read entries *)
-  Section Fold.
-    Variable li : fjv -> option item.
-    Variable fs : list (fid * fval).
-    Variable val : fjv.
-
-    Definition step_spec (r : rflat) : Prop :=
-      exists ox, get_value jr_tables li 3 val (rf_getter r) (rf_term r) (rf_conv r) = Some ox /\
-        match getf (rf_fid r) fs with
-        | Some v => exists x, ox = Some x /\ link_guard (rf_guard r) x = nrmv v /\ fval_is_zero (nrmv v) = false
-        | None => match ox with None => True | Some x => fval_is_zero (link_guard (rf_guard r) x) = true end
-        end.
-
-    Lemma fold_reads : forall rs acc, NoDup (map rf_fid rs) -> (forall r, In r rs -> step_spec r) ->
-      (forall r, In r rs -> getf (rf_fid r) acc = None) ->
-      exists acc', fold_left (read_step jr_tables li val) rs (Some acc) = Some acc' /\
-        forall f, getf f acc' = if existsb (fun r => fid_beq f (rf_fid r)) rs then option_map nrmv (getf f fs) else getf f acc.
-    Proof.
-      induction rs as [|r rs IH]; intros acc Hnd Hs Hacc.
-      - exists acc. split; [reflexivity|]. intros f. reflexivity.
-      - cbn [map] in Hnd. inversion Hnd as [|? ? Hnin Hnd']; subst.
-        destruct (Hs r (or_introl eq_refl)) as [ox [Hgv Hsp]].
-        set (acc1 := match getf (rf_fid r) fs with Some v => setf (rf_fid r) (nrmv v) acc | None => acc end).
-        assert (E : read_step jr_tables li val (Some acc) r = Some acc1).
-        { unfold read_step. rewrite Hgv. unfold acc1. destruct (getf (rf_fid r) fs) as [v|].
-          - destruct Hsp as [x [-> [Hx Hz]]]. cbv zeta. rewrite Hx, Hz. reflexivity.
-          - destruct ox as [x|]; [|reflexivity]. cbv zeta. rewrite Hsp. reflexivity. }
-        cbn [fold_left].
-        rewrite E.
-        assert (Hacc1 : forall r', In r' rs -> getf (rf_fid r') acc1 = None).
-        { intros r' Hr'. unfold acc1. destruct (getf (rf_fid r) fs) as [v|] eqn:Eg; [|exact (Hacc r' (or_intror Hr'))].
-          destruct Hsp as [x [_ [_ Hz]]]. unfold setf. rewrite Hz, getf_replf.
-          destruct (fid_beq (rf_fid r') (rf_fid r)) eqn:Ef; [|exact (Hacc r' (or_intror Hr'))].
-          apply fid_beq_eq in Ef. exfalso. apply Hnin. rewrite <- Ef. apply in_map. exact Hr'. }
-        destruct (IH acc1 Hnd' (fun r' Hr' => Hs r' (or_intror Hr')) Hacc1) as [acc' [Hf Hget]].
-        exists acc'. split; [exact Hf|]. intros f. rewrite Hget. cbn [existsb].
-        destruct (existsb (fun r0 => fid_beq f (rf_fid r0)) rs) eqn:Ex.
-        + rewrite orb_true_r. reflexivity.
-        + rewrite orb_false_r. unfold acc1. destruct (fid_beq f (rf_fid r)) eqn:Ef.
-          * apply fid_beq_eq in Ef. subst f. destruct (getf (rf_fid r) fs) as [v|] eqn:Eg.
-            -- destruct Hsp as [x [_ [_ Hz]]]. unfold setf. rewrite Hz, getf_replf, fid_beq_refl. reflexivity.
-            -- exact (Hacc r (or_introl eq_refl)).
-          * destruct (getf (rf_fid r) fs) as [v|]; [|reflexivity].
-            destruct Hsp as [x [_ [_ Hz]]]. unfold setf. rewrite Hz, getf_replf, Ef. reflexivity.
-    Qed.
-  End Fold.
-
-  Lemma nth_error_map_inv {A B} (h : A -> B) l i y : nth_error (map h l) i = Some y -> exists x, nth_error l i = Some x /\ h x = y.
-  Proof.
-    revert i. induction l as [|a l IH]; intros i H; [destruct i; discriminate|]. destruct i as [|i].
-    - inversion H. exists a. split; reflexivity.
-    - exact (IH i H).
-  Qed.
-
-  Lemma concat_nil_in {A} (os : list (list A)) o : concat os = [] -> In o os -> o = [].
-  Proof.
-    induction os as [|x r IH]; intros H Hin; [destruct Hin|]. cbn [concat] in H. apply app_eq_nil in H. destruct H as [H1 H2].
-    destruct Hin as [<-|Hin]; [exact H1|exact (IH H2 Hin)].
-  Qed.
-
-  Lemma filter_single {A} (P : A -> bool) l e : filter P l = [e] -> In e l /\ P e = true.
-  Proof. intros H. assert (Hin : In e (filter P l)) by (rewrite H; left; reflexivity). apply filter_In in Hin. exact Hin. Qed.
-
-  (* ---------------------------------------------------------------- one object, given its sub-objects *)
-  Lemma has_bs_plain k : key_plain k = true -> has_bs k = false.
-  Proof. apply plain_no_bs. Qed.
-
-  Lemma outs_nth_os t_i fs esd os : outs_of jw_tables t_i fs esd os -> forall i o, nth_error os i = Some o ->
-    exists de, nth_error esd i = Some de /\ entry_out jw_tables t_i (fst de) fs (snd de) = Some o.
-  Proof.
-    intros H. induction H as [|de0 o0 es os He Hr IH]; intros i o Hi; [destruct i; discriminate|].
-    destruct i as [|i].
-    - inversion Hi; subst. exists de0. split; [reflexivity|exact He].
-    - exact (IH i o Hi).
-  Qed.
+  (* the plumbing lemmas of Proofs/C01LeafP.v at the tables of this section *)
+  Notation wf_fields := (C01LeafP.wf_fields layout_of registry load_switch activity_types actor_types link_types).
+  Notation norm_obj := (C01LeafP.norm_obj layout_of).
+  Notation step_spec := (C01LeafP.step_spec jr_tables layout_of).
+  Notation fold_reads := (C01LeafP.fold_reads jr_tables layout_of).
+  Notation outs_forall2 := (C01LeafP.outs_forall2 jw_tables).
+  Notation outs_nth := (C01LeafP.outs_nth jw_tables).
+  Notation outs_nth_os := (C01LeafP.outs_nth_os jw_tables).
 
   Section Obj.
     Variable g : nat.
@@ -290,15 +107,16 @@ Section Round.
       tr f (IObj p k fs) = Some o -> exists kvs, o = Some (FObj kvs).
     Hypothesis HLo : forall f p k fs kvs, wf (IObj p k fs) = true -> ddepth (IObj p k fs) <= g ->
       tr f (IObj p k fs) = Some (Some (FObj kvs)) -> ld g (FObj kvs) = Some (nrm (IObj p k fs)).
-    Hypothesis HLs : forall raw u, 1 <= g -> url_classify (fj_unescape raw) = UValid u ->
-      ld g (Text.FStr raw) = Some (IIri false (fj_unescape raw)).
+    Hypothesis HLs : forall raw s, 1 <= g -> as_iri (Text.FStr raw) = Some (Some s) -> ld g (Text.FStr raw) = Some (IIri false s).
     Hypothesis HKo : forall f p k fs kvs, wf (IObj p k fs) = true -> ddepth (IObj p k fs) <= g ->
       tr f (IObj p k fs) = Some (Some (FObj kvs)) -> tree_ok (2 * ddepth (IObj p k fs) + 1) (FObj kvs).
+    Hypothesis HDo : forall f p k fs kvs, wf (IObj p k fs) = true -> ddepth (IObj p k fs) <= g ->
+      tr f (IObj p k fs) = Some (Some (FObj kvs)) -> ddepth (IObj p k fs) <= S (fdepth (FObj kvs)).
 
     Lemma obj_round fe p k fs o : wf (IObj p k fs) = true -> ddepth (IObj p k fs) <= S g ->
       tr (S fe) (IObj p k fs) = Some o ->
       exists ms, o = Some (FObj ms) /\
-        tree_ok (2 * ddepth (IObj p k fs) + 1) (FObj ms) /\
+        tree_ok (2 * ddepth (IObj p k fs) + 1) (FObj ms) /\ ddepth (IObj p k fs) <= S (fdepth (FObj ms)) /\
         load_item_level jr_tables layout_of registry load_switch activity_types actor_types link_types (ld g) (FObj ms)
         = Some (nrm (IObj p k fs)).
     Proof.
@@ -315,7 +133,7 @@ Section Round.
       pose proof (kind_ok_of k) as Hk. unfold kind_ok in Hk.
       destruct (entries_of jw_tables k) as [es|] eqn:Ees; [|discriminate].
       destruct (reads_of jr_tables k) as [rs|] eqn:Ers; [|discriminate].
-      rewrite !andb_true_iff in Hk. destruct Hk as [[[[[[[[Kread Kndr] Kall] Kkeys] Kplain] Kforeign] Kndl] Ktype] Kacc].
+      rewrite !andb_true_iff in Hk. destruct Hk as [[[[[[[[[Kread Kndr] Kall] Kkeys] Kplain] Kforeign] Kndl] Ktype] Kacc] Kdepth].
       (* the tree *)
       cbn [tree_item] in Ht. unfold t_struct in Ht.
       destruct (t_run_table jw_tables 6 (tr fe) (marshal_table k) fs) as [[ms ne]|] eqn:Er; [|discriminate].
@@ -334,11 +152,13 @@ Section Round.
                 entry_out jw_tables (tr fe) (fst de) fs (snd de) = Some oe ->
                 forall r, In r rs -> entry_for (rf_fid r) (snd de) = true ->
                 step_spec (ld g) fs (FObj ms) r /\ (forall v, getf (rf_fid r) fs = Some v -> ms <> [])
-                /\ (forall kv, In kv oe -> tree_ok (2 * M + 2) (snd kv))).
+                /\ (forall kv, In kv oe -> tree_ok (2 * M + 2) (snd kv))
+                /\ (forall v, getf (rf_fid r) fs = Some v -> exists kv, In kv oe /\ fdepth_v v <= S (fdepth (snd kv)))).
       { intros i de oe Hde Hoe Hout r Hr Hfor. rewrite forallb_forall in Kread. specialize (Kread r Hr). unfold read_ok in Kread.
         destruct (decl_for layout_of k (rf_fid r)) as [d|] eqn:Ed; [|discriminate].
-        rewrite !andb_true_iff in Kread. destruct Kread as [[Kterm Ksrc] Kpair].
+        rewrite !andb_true_iff in Kread. destruct Kread as [[[Kterm Ksrc] Kleaf] Kpair].
         destruct (filter (entry_for (rf_fid r)) es) as [|e [|e2 er]] eqn:Ef; try discriminate.
+        assert (Hleaf : leaf_cond jw_tables jr_tables (fd_type d) r) by (unfold leaf_cond; destruct (fd_type d); try exact I; exact Kleaf).
         assert (Hi : nth_error es i = Some (snd de)) by (rewrite <- Ees'; apply map_nth_error; exact Hde).
         assert (He : snd de = e).
         { assert (Hin : In (snd de) (filter (entry_for (rf_fid r)) es))
@@ -353,17 +173,19 @@ Section Round.
           assert (d' = d) by (unfold decl_of in Hd'; unfold decl_for in Ed; congruence). subst d'.
           pose proof (Hdep _ _ (getf_in _ _ _ Eg)) as HvM.
           destruct (field_set jw_tables jr_tables layout_of registry load_switch activity_types actor_types link_types (ld g) g fe
-                      HEo HLo HLs HKo (fst de) fs ms Hplain (fd_type d) (rf_fid r) e r oe v Kpair Hout Hlook Eg Hwv
+                      HEo HLo HLs HKo HDo (fst de) fs ms Hplain 1 (fd_type d) (rf_fid r) e r oe v Kpair Hleaf Hout Hlook Eg Hwv
                       ltac:(lia)) as [Hoe_ne [Hmem [x [Hgv [Hx Hz]]]]].
-          split; [|split].
-          + unfold step_spec. rewrite Eg. exists (Some x). split; [exact Hgv|]. exists x. repeat split; assumption.
+          split; [|split; [|split]].
+          + unfold C01LeafP.step_spec, step_spec_g. rewrite Eg. exists (Some x). split; [exact Hgv|]. exists x. repeat split; assumption.
           + intros v0 _ Hc. apply Hoe_ne. rewrite Hms in Hc.
             apply (concat_nil_in os oe Hc). eapply nth_error_In. exact Hoe.
-          + intros kv Hkv. apply (tree_ok_mono (2 * fdepth_v v + 2)); [exact (Hmem kv Hkv)|lia].
-        - destruct (field_unset jw_tables jr_tables (ld g) fe (fst de) fs ms Hplain (fd_type d) (rf_fid r) e r oe Kpair Ksrc Hout Hlook Eg)
+          + intros kv Hkv. apply (tree_ok_mono (2 * fdepth_v v + 2)); [exact (proj1 (Hmem kv Hkv))|lia].
+          + intros v0 Hv0. inversion Hv0; subst v0. destruct oe as [|kv oe']; [congruence|]. exists kv.
+            split; [left; reflexivity|exact (proj2 (Hmem kv (or_introl eq_refl)))].
+        - destruct (field_unset jw_tables jr_tables (ld g) fe (fst de) fs ms Hplain 1 (fd_type d) (rf_fid r) e r oe Kpair Ksrc Hout Hlook Eg)
             as [Hmem [ox [Hgv Hz]]].
-          split; [|split; [intros v Hv; discriminate|]].
-          + unfold step_spec. rewrite Eg. exists ox. split; assumption.
+          split; [|split; [intros v Hv; discriminate|split; [|intros v Hv; discriminate]]].
+          + unfold C01LeafP.step_spec, step_spec_g. rewrite Eg. exists ox. split; assumption.
           + intros kv Hkv. apply (tree_ok_mono 2); [exact (Hmem kv Hkv)|lia]. }
       (* every read entry meets its specification *)
       assert (Hspec : forall r, In r rs -> step_spec (ld g) fs (FObj ms) r /\
@@ -378,6 +200,33 @@ Section Round.
         destruct (outs_nth (tr fe) fs esd os Houts i de Hde) as [oe [Hoe Hout]].
         rewrite <- Hsnd in Hfor.
         destruct (Hent i de oe Hde Hoe Hout r Hr Hfor) as [H1 [H2 _]]. split; assumption. }
+      (* a set field is at most one level deeper than some member *)
+      assert (Hdeep : forall f v, In (f, v) fs -> fdepth_v v <= fdepth (FObj ms)).
+      { intros f v Hin.
+        assert (Eg : getf f fs = Some v).
+        { clear - Hin Hnd. induction fs as [|[f1 v1] r1 IH]; [destruct Hin|]. cbn [nodup_fids] in Hnd. apply andb_true_iff in Hnd.
+          destruct Hnd as [Hn Hr]. cbn [getf]. destruct Hin as [E|Hin].
+          - inversion E; subst. rewrite fid_beq_refl. reflexivity.
+          - destruct (fid_beq f f1) eqn:Ef; [|exact (IH Hr Hin)]. apply fid_beq_eq in Ef. subst f1. exfalso.
+            apply negb_true_iff in Hn. assert (existsb (fun p => fid_beq (fst p) f) r1 = true); [|congruence].
+            apply existsb_exists. exists (f, v). split; [exact Hin|apply fid_beq_refl]. }
+        destruct (Hfv f v Hin) as [d0 [Hd0 _]].
+        unfold decl_of in Hd0. apply find_some in Hd0. destruct Hd0 as [Hd0in Hd0f]. apply fid_beq_eq in Hd0f.
+        rewrite forallb_forall in Kall. specialize (Kall d0 Hd0in). apply existsb_exists in Kall. destruct Kall as [r0 [Hr0 Hr0f]].
+        apply fid_beq_eq in Hr0f.
+        pose proof Kread as Kread'. rewrite forallb_forall in Kread'. specialize (Kread' r0 Hr0). unfold read_ok in Kread'.
+        destruct (decl_for layout_of k (rf_fid r0)) as [d1|] eqn:Ed; [|discriminate].
+        rewrite !andb_true_iff in Kread'. destruct Kread' as [_ Kpair].
+        destruct (filter (entry_for (rf_fid r0)) es) as [|e [|e2 er]] eqn:Ef; try discriminate.
+        destruct (filter_single _ _ _ Ef) as [Hein Hfor].
+        destruct (In_nth_error es e Hein) as [i Hi].
+        rewrite <- Ees' in Hi. destruct (nth_error_map_inv snd esd i e Hi) as [de [Hde Hsnd]].
+        destruct (outs_nth (tr fe) fs esd os Houts i de Hde) as [oe [Hoe Hout]].
+        rewrite <- Hsnd in Hfor.
+        destruct (Hent i de oe Hde Hoe Hout r0 Hr0 Hfor) as [_ [_ [_ H4]]].
+        rewrite Hr0f, Hd0f in H4. destruct (H4 v Eg) as [kv [Hkv Hle]].
+        assert (Hkvms : In kv ms) by (rewrite Hms; apply in_concat; exists oe; split; [eapply nth_error_In; exact Hoe|exact Hkv]).
+        pose proof (fdepth_FObj_in ms kv Hkvms). lia. }
       (* every member is inside the decoder model and shallow *)
       assert (Hmembers : forall kv, In kv ms -> tree_ok (2 * M + 2) (snd kv)).
       { intros kv Hin. rewrite Hms in Hin. apply in_concat in Hin. destruct Hin as [oe [Hoe Hkv]].
@@ -386,7 +235,7 @@ Section Round.
         assert (Hine : In (snd de) es) by (rewrite <- Ees'; apply in_map; eapply nth_error_In; exact Hde).
         rewrite forallb_forall in Kforeign. specialize (Kforeign _ Hine). apply existsb_exists in Kforeign.
         destruct Kforeign as [r [Hr Hfor]].
-        destruct (Hent i de oe Hde Hi Hout r Hr Hfor) as [_ [_ H3]]. exact (H3 kv Hkv). }
+        destruct (Hent i de oe Hde Hi Hout r Hr Hfor) as [_ [_ [H3 _]]]. exact (H3 kv Hkv). }
       (* at least one member was written, so the object is not empty *)
       assert (Hms_ne : ms <> []).
       { destruct fs as [|[f0 v0] fs']; [discriminate|].
@@ -407,6 +256,8 @@ Section Round.
           + apply forallb_forall. intros kv Hin. exact (proj1 (Hmembers kv Hin)).
         - rewrite HdM. replace (2 * S M + 1) with (S (2 * M + 2)) by lia. apply fdepth_FObj_le.
           intros kv Hin. exact (proj2 (Hmembers kv Hin)). }
+      split.
+      { rewrite HdM. apply le_n_S. unfold M. apply fdepth_fields_bound. exact Hdeep. }
       (* the fold over the read entries *)
       destruct (fold_reads (ld g) fs (FObj ms) rs [] (nodup_fid_NoDup _ Kndr) (fun r Hr => proj1 (Hspec r Hr)) (fun r _ => eq_refl))
         as [acc' [Hfold Hget]].
@@ -428,7 +279,7 @@ Section Round.
         apply fid_beq_eq in HrTf. rewrite HdTf in HrTf.
         rewrite forallb_forall in KtG. specialize (KtG rT HrT). rewrite HrTf, fid_beq_refl in KtG. cbn [negb orb] in KtG.
         rewrite forallb_forall in Kread. pose proof (Kread rT HrT) as KrT. unfold read_ok in KrT. rewrite HrTf, EdT in KrT.
-        rewrite !andb_true_iff in KrT. destruct KrT as [[KrTt _] _]. apply bytes_eqb_eq in KrTt. rewrite KtTerm in KrTt.
+        rewrite !andb_true_iff in KrT. destruct KrT as [[[KrTt _] _] _]. apply bytes_eqb_eq in KrTt. rewrite KtTerm in KrTt.
         destruct (Hspec rT HrT) as [[ox [Hgv Hsp]] _]. rewrite KrTt, HrTf in *.
         rewrite (gv_str jr_tables (ld g) 2 (FObj ms) (rf_getter rT) (B "type") (rf_conv rT) (existsb_in _ _ KtG)) in Hgv.
         change (sub_get (FObj ms) (B "type")) with (jget (FObj ms) (B "type")) in Hgv.
@@ -458,10 +309,10 @@ Section Round.
   End Obj.
 
   (* ---------------------------------------------------------------- strings at item level *)
-  Lemma load_str li raw u : url_classify (fj_unescape raw) = UValid u ->
+  Lemma load_str li raw s : as_iri (Text.FStr raw) = Some (Some s) ->
     load_item_level jr_tables layout_of registry load_switch activity_types actor_types link_types li (Text.FStr raw)
-    = Some (IIri false (fj_unescape raw)).
-  Proof. intros H. unfold load_item_level, as_string_iri. cbn [jget fj_get jstr]. rewrite (as_iri_of_plain raw u H). reflexivity. Qed.
+    = Some (IIri false s).
+  Proof. intros H. unfold load_item_level, as_string_iri. cbn [jget fj_get jstr]. rewrite H. reflexivity. Qed.
 
   Lemma load_item_S f v : ld (S f) v =
     load_item_level jr_tables layout_of registry load_switch activity_types actor_types link_types (ld f) v.
@@ -471,33 +322,36 @@ Section Round.
   Theorem elem_round : forall g y, is_elem y = true -> wf y = true -> ddepth y <= g ->
     forall f o, tr f y = Some o ->
     exists tv, o = Some tv /\ (match y with IObj _ _ _ => exists kvs, tv = FObj kvs | _ => True end)
-               /\ tree_ok (2 * ddepth y + 1) tv /\ ld g tv = Some (nrm y).
+               /\ tree_ok (2 * ddepth y + 1) tv /\ ddepth y <= S (fdepth tv) /\ ld g tv = Some (nrm y).
   Proof.
     induction g as [|g IH]; intros y He Hw Hd f o Ht.
     - pose proof (ddepth_ge1 y He). lia.
-    - assert (HLs : forall raw u, 1 <= g -> url_classify (fj_unescape raw) = UValid u ->
-                ld g (Text.FStr raw) = Some (IIri false (fj_unescape raw))).
-      { intros raw u Hg Hu. destruct g as [|g']; [lia|]. rewrite load_item_S. exact (load_str _ raw u Hu). }
+    - assert (HLs : forall raw s, 1 <= g -> as_iri (Text.FStr raw) = Some (Some s) -> ld g (Text.FStr raw) = Some (IIri false s)).
+      { intros raw s0 Hg Hu. destruct g as [|g']; [lia|]. rewrite load_item_S. exact (load_str _ raw s0 Hu). }
       assert (HEo : forall f p k fs o, wf (IObj p k fs) = true -> ddepth (IObj p k fs) <= g ->
                 tr f (IObj p k fs) = Some o -> exists kvs, o = Some (FObj kvs)).
       { intros f0 p k fs o0 Hw0 Hd0 Ht0. destruct (IH (IObj p k fs) eq_refl Hw0 Hd0 f0 o0 Ht0) as [tv [-> [[kvs ->] _]]].
         exists kvs. reflexivity. }
       assert (HLo : forall f p k fs kvs, wf (IObj p k fs) = true -> ddepth (IObj p k fs) <= g ->
                 tr f (IObj p k fs) = Some (Some (FObj kvs)) -> ld g (FObj kvs) = Some (nrm (IObj p k fs))).
-      { intros f0 p k fs kvs Hw0 Hd0 Ht0. destruct (IH (IObj p k fs) eq_refl Hw0 Hd0 f0 _ Ht0) as [tv [E [_ [_ Hl]]]].
+      { intros f0 p k fs kvs Hw0 Hd0 Ht0. destruct (IH (IObj p k fs) eq_refl Hw0 Hd0 f0 _ Ht0) as [tv [E [_ [_ [_ Hl]]]]].
         inversion E; subst. exact Hl. }
       assert (HKo : forall f p k fs kvs, wf (IObj p k fs) = true -> ddepth (IObj p k fs) <= g ->
                 tr f (IObj p k fs) = Some (Some (FObj kvs)) -> tree_ok (2 * ddepth (IObj p k fs) + 1) (FObj kvs)).
       { intros f0 p k fs kvs Hw0 Hd0 Ht0. destruct (IH (IObj p k fs) eq_refl Hw0 Hd0 f0 _ Ht0) as [tv [E [_ [Hk _]]]].
         inversion E; subst. exact Hk. }
+      assert (HDo : forall f p k fs kvs, wf (IObj p k fs) = true -> ddepth (IObj p k fs) <= g ->
+                tr f (IObj p k fs) = Some (Some (FObj kvs)) -> ddepth (IObj p k fs) <= S (fdepth (FObj kvs))).
+      { intros f0 p k fs kvs Hw0 Hd0 Ht0. destruct (IH (IObj p k fs) eq_refl Hw0 Hd0 f0 _ Ht0) as [tv [E [_ [_ [Hk _]]]]].
+        inversion E; subst. exact Hk. }
       destruct y as [|k|p s|p k fs|p l|p l]; try discriminate.
       + cbn [wf_item] in Hw. rewrite (tree_iri jw_tables f p s o Hw Ht). eexists. split; [reflexivity|]. split; [exact I|].
-        split; [split; [reflexivity|cbn [fdepth ddepth]; lia]|].
-        destruct (iri_ok_facts s Hw) as [[u Hu] [Hdec _]].
-        rewrite load_item_S. rewrite (load_str _ (escape_quote s) u) by (rewrite Hdec; exact Hu). rewrite Hdec. reflexivity.
+        split; [split; [reflexivity|cbn [fdepth ddepth]; lia]|]. split; [cbn [ddepth]; lia|].
+        destruct (iri_ok_facts s Hw) as [Hu _].
+        rewrite load_item_S. exact (load_str _ (escape_quote s) s Hu).
       + destruct f as [|fe]; [discriminate|].
-        destruct (obj_round g HEo HLo HLs HKo fe p k fs o Hw Hd Ht) as [ms [-> [Hk Hl]]].
-        exists (FObj ms). split; [reflexivity|]. split; [exists ms; reflexivity|]. split; [exact Hk|].
+        destruct (obj_round g HEo HLo HLs HKo HDo fe p k fs o Hw Hd Ht) as [ms [-> [Hk [Hdp Hl]]]].
+        exists (FObj ms). split; [reflexivity|]. split; [exists ms; reflexivity|]. split; [exact Hk|]. split; [exact Hdp|].
         rewrite load_item_S. exact Hl.
   Qed.
 
@@ -535,10 +389,15 @@ Section Round.
       pose proof (kind_ok_of k) as Hk. unfold kind_ok in Hk.
       destruct (entries_of jw_tables k) as [es|] eqn:Ees; [|discriminate].
       destruct (reads_of jr_tables k) as [rs|] eqn:Ers; [|discriminate].
-      rewrite !andb_true_iff in Hk. destruct Hk as [[[[[[[[Kread Kndr] Kall] Kkeys] Kplain] Kforeign] Kndl] Ktype] Kacc].
+      rewrite !andb_true_iff in Hk. destruct Hk as [[[[[[[[[Kread Kndr] Kall] Kkeys] Kplain] Kforeign] Kndl] Ktype] Kacc] Kdepth].
       unfold entries_of in Ees. rewrite flatten_wd_w in Ees.
       destruct (flatten_wd jw_tables 6 (marshal_table k)) as [esd|] eqn:Eesd; [|discriminate].
       cbn [option_map] in Ees. inversion Ees as [Ees']. clear Ees.
+      (* every entry sits at a depth from which the table of a leaf struct can still be run *)
+      assert (Hdepth : forall de, In de esd -> exists d', fst de = S d').
+      { rewrite flatten_wd_w in Kdepth. destruct (flatten_wd jw_tables 5 (marshal_table k)) as [l5|] eqn:E5; [|discriminate].
+        rewrite (flatten_wd_S jw_tables 5 _ l5 E5) in Eesd. inversion Eesd; subst esd.
+        intros de Hde. apply in_map_iff in Hde. destruct Hde as [de0 [<- _]]. eexists; reflexivity. }
       assert (HD : forall y, wf y = true -> item_size y <= f - 1 -> exists o, tr f y = Some o).
       { intros y Hy Hsz. apply IH; [exact Hy|]. cbn [item_size] in Hs. lia. }
       destruct (run_defined jw_tables (tr f) fs 6 (marshal_table k) esd Eesd) as [ms [ne Hr]].
@@ -548,17 +407,23 @@ Section Round.
         destruct Kforeign as [r [Hr Hfor]].
         rewrite forallb_forall in Kread. specialize (Kread r Hr). unfold read_ok in Kread.
         destruct (decl_for layout_of k (rf_fid r)) as [d|] eqn:Ed; [|discriminate].
-        rewrite !andb_true_iff in Kread. destruct Kread as [[Kterm Ksrc] Kpair].
+        rewrite !andb_true_iff in Kread. destruct Kread as [[[Kterm Ksrc] Kleaf] Kpair].
         destruct (filter (entry_for (rf_fid r)) es) as [|e [|e2 er]] eqn:Ef; try discriminate.
+        assert (Hleaf : leaf_cond jw_tables jr_tables (fd_type d) r) by (unfold leaf_cond; destruct (fd_type d); try exact I; exact Kleaf).
         assert (He : snd de = e).
         { assert (Hin : In (snd de) (filter (entry_for (rf_fid r)) es)) by (apply filter_In; split; assumption).
           rewrite Ef in Hin. destruct Hin as [<-|[]]. reflexivity. }
-        rewrite He.
-        apply (entry_defined jw_tables layout_of registry load_switch activity_types actor_types link_types f (fst de) fs (f - 1) HD
-                 (fd_type d) (rf_fid r) e r Kpair).
-        intros v Hv. destruct (Hfv _ _ (getf_in _ _ _ Hv)) as [d' [Hd' Hwv]].
-        assert (d' = d) by (unfold decl_of in Hd'; unfold decl_for in Ed; congruence). subst d'.
-        split; [exact Hwv|]. pose proof (size_field fs _ v p k (getf_in _ _ _ Hv)). lia. }
+        rewrite He. destruct (Hdepth de Hde) as [d' ->].
+        assert (Hval : forall v, getf (rf_fid r) fs = Some v ->
+                  wfv (fd_type d) v = true /\ fval_size v <= f - 1).
+        { intros v Hv. destruct (Hfv _ _ (getf_in _ _ _ Hv)) as [d0 [Hd0 Hwv]].
+          assert (d0 = d) by (unfold decl_of in Hd0; unfold decl_for in Ed; congruence). subst d0.
+          split; [exact Hwv|]. pose proof (size_field fs _ v p k (getf_in _ _ _ Hv)). lia. }
+        apply (entry_defined jw_tables layout_of registry load_switch activity_types actor_types link_types f (S d') fs (f - 1) HD
+                 (fd_type d) (rf_fid r) e r Kpair Hval).
+        intros v Hv Hwv. destruct (Hval v Hv) as [_ Hsz].
+        exact (struct_defined_wf jw_tables jr_tables layout_of registry load_switch activity_types actor_types link_types f (f - 1) HD
+                 (fd_type d) r v d' Hleaf Hwv Hsz). }
       rewrite Hr. eexists; reflexivity.
     - (* list *)
       destruct l as [|x [|y r]]; [discriminate| |].
@@ -573,62 +438,126 @@ Section Round.
   (* ---------------------------------------------------------------- documents *)
   Notation um := (unmarshal_to_item jr_tables layout_of registry load_switch activity_types actor_types link_types).
 
-  Theorem tree_round x o : wf x = true -> ddepth x <= 64 -> tree_of jw_tables x = Some o ->
-    exists v, o = Some v /\ tree_ok (2 * ddepth x + 2) v /\ um v = Some (nrm x).
+  (* JSONUnmarshalToItem with any fuel g (unmarshal_core is the instance g = json_dec_fuel) *)
+  Definition core_g (g : nat) (v : fjv) : option item :=
+    match v with
+    | FArr l => match items_fn (ld g) l with Some acc => Some (IItems false (Some acc)) | None => None end
+    | FObj _ => ld g v
+    | Text.FStr _ => match as_iri v with Some (Some s) => Some (IIri false s) | Some None => Some INil | None => None end
+    | _ => Some INil
+    end.
+
+  Theorem tree_round_g g x o : wf x = true -> ddepth x <= g -> tree_of jw_tables x = Some o ->
+    exists v, o = Some v /\ tree_ok (2 * ddepth x + 2) v /\ ddepth x <= S (fdepth v) /\ core_g g v = Some (nrm x).
   Proof.
     intros Hw Hd Ht.
-    assert (HEo : forall f p k fs o, wf (IObj p k fs) = true -> ddepth (IObj p k fs) <= 64 ->
+    assert (HEo : forall f p k fs o, wf (IObj p k fs) = true -> ddepth (IObj p k fs) <= g ->
               tr f (IObj p k fs) = Some o -> exists kvs, o = Some (FObj kvs)).
-    { intros f0 p k fs o0 Hw0 Hd0 Ht0. destruct (elem_round 64 (IObj p k fs) eq_refl Hw0 Hd0 f0 o0 Ht0) as [tv [-> [[kvs ->] _]]].
+    { intros f0 p k fs o0 Hw0 Hd0 Ht0. destruct (elem_round g (IObj p k fs) eq_refl Hw0 Hd0 f0 o0 Ht0) as [tv [-> [[kvs ->] _]]].
       exists kvs. reflexivity. }
-    assert (HLo : forall f p k fs kvs, wf (IObj p k fs) = true -> ddepth (IObj p k fs) <= 64 ->
-              tr f (IObj p k fs) = Some (Some (FObj kvs)) -> ld 64 (FObj kvs) = Some (nrm (IObj p k fs))).
-    { intros f0 p k fs kvs Hw0 Hd0 Ht0. destruct (elem_round 64 (IObj p k fs) eq_refl Hw0 Hd0 f0 _ Ht0) as [tv [E [_ [_ Hl]]]].
+    assert (HLo : forall f p k fs kvs, wf (IObj p k fs) = true -> ddepth (IObj p k fs) <= g ->
+              tr f (IObj p k fs) = Some (Some (FObj kvs)) -> ld g (FObj kvs) = Some (nrm (IObj p k fs))).
+    { intros f0 p k fs kvs Hw0 Hd0 Ht0. destruct (elem_round g (IObj p k fs) eq_refl Hw0 Hd0 f0 _ Ht0) as [tv [E [_ [_ [_ Hl]]]]].
       inversion E; subst. exact Hl. }
-    assert (HKo : forall f p k fs kvs, wf (IObj p k fs) = true -> ddepth (IObj p k fs) <= 64 ->
+    assert (HKo : forall f p k fs kvs, wf (IObj p k fs) = true -> ddepth (IObj p k fs) <= g ->
               tr f (IObj p k fs) = Some (Some (FObj kvs)) -> tree_ok (2 * ddepth (IObj p k fs) + 1) (FObj kvs)).
-    { intros f0 p k fs kvs Hw0 Hd0 Ht0. destruct (elem_round 64 (IObj p k fs) eq_refl Hw0 Hd0 f0 _ Ht0) as [tv [E [_ [Hk _]]]].
+    { intros f0 p k fs kvs Hw0 Hd0 Ht0. destruct (elem_round g (IObj p k fs) eq_refl Hw0 Hd0 f0 _ Ht0) as [tv [E [_ [Hk _]]]].
       inversion E; subst. exact Hk. }
-    assert (HLs : forall raw u, 1 <= 64 -> url_classify (fj_unescape raw) = UValid u ->
-              ld 64 (Text.FStr raw) = Some (IIri false (fj_unescape raw))).
-    { intros raw u _ Hu. rewrite load_item_S. exact (load_str _ raw u Hu). }
-    destruct (wf_item_tree jw_tables layout_of registry load_switch activity_types actor_types link_types (ld 64) 64 HEo HLo HLs
+    assert (HDo : forall f p k fs kvs, wf (IObj p k fs) = true -> ddepth (IObj p k fs) <= g ->
+              tr f (IObj p k fs) = Some (Some (FObj kvs)) -> ddepth (IObj p k fs) <= S (fdepth (FObj kvs))).
+    { intros f0 p k fs kvs Hw0 Hd0 Ht0. destruct (elem_round g (IObj p k fs) eq_refl Hw0 Hd0 f0 _ Ht0) as [tv [E [_ [_ [Hk _]]]]].
+      inversion E; subst. exact Hk. }
+    assert (HLs : forall raw s, 1 <= g -> as_iri (Text.FStr raw) = Some (Some s) -> ld g (Text.FStr raw) = Some (IIri false s)).
+    { intros raw s0 Hg Hu. destruct g as [|g']; [lia|]. rewrite load_item_S. exact (load_str _ raw s0 Hu). }
+    destruct (wf_item_tree jw_tables layout_of registry load_switch activity_types actor_types link_types (ld g) g HEo HLo HLs
                 _ x o Hw Hd Ht) as [f' [tv [-> Htree]]].
     exists tv. split; [reflexivity|].
-    pose proof (item_tree_ok jw_tables layout_of registry load_switch activity_types actor_types link_types (ld 64) 64 HEo HLo HLs HKo
+    pose proof (item_tree_ok jw_tables layout_of registry load_switch activity_types actor_types link_types (ld g) g HEo HLo HLs HKo
                   f' x tv Htree) as Hok.
     split; [exact Hok|].
-    unfold unmarshal_to_item. rewrite (proj1 Hok). unfold unmarshal_core. cbv zeta.
+    split; [exact (item_tree_deep jw_tables layout_of registry load_switch activity_types actor_types link_types (ld g) g HEo HLo HLs HDo
+                     f' x tv Htree)|].
     inversion Htree as [y tv' Hoky Hy|p x0 tv' Hokx Hx|p x0 y0 l ts Hokl Hdist Hf]; subst.
-    - destruct (elem_tree jw_tables layout_of registry load_switch activity_types actor_types link_types (ld 64) 64 HEo HLo HLs
+    - destruct (elem_tree jw_tables layout_of registry load_switch activity_types actor_types link_types (ld g) g HEo HLo HLs
                   f' x _ Hoky Hy) as [tv2 [E [Hl [Hn Hs]]]]. inversion E; subst tv2.
       destruct x as [|k|p s|p k fs|p l|p l]; try (destruct Hoky as [C _]; discriminate).
-      + subst tv. destruct Hoky as [_ [Hw' _]]. cbn [wf_item] in Hw'. rewrite (as_iri_valid s Hw'). reflexivity.
+      + subst tv. destruct Hoky as [_ [Hw' _]]. cbn [wf_item] in Hw'. cbn [core_g]. rewrite (as_iri_valid s Hw'). reflexivity.
       + destruct Hs as [kvs ->]. exact Hl.
-    - destruct (elem_tree jw_tables layout_of registry load_switch activity_types actor_types link_types (ld 64) 64 HEo HLo HLs
+    - destruct (elem_tree jw_tables layout_of registry load_switch activity_types actor_types link_types (ld g) g HEo HLo HLs
                   f' x0 _ Hokx Hx) as [tv2 [E [Hl [Hn Hs]]]]. inversion E; subst tv2.
       change (nrm (IItems p (Some [x0]))) with (nrm x0).
       destruct x0 as [|k|p' s|p' k fs|p' l|p' l]; try (destruct Hokx as [C _]; discriminate).
-      + subst tv. destruct Hokx as [_ [Hw' _]]. cbn [wf_item] in Hw'. rewrite (as_iri_valid s Hw'). reflexivity.
+      + subst tv. destruct Hokx as [_ [Hw' _]]. cbn [wf_item] in Hw'. cbn [core_g]. rewrite (as_iri_valid s Hw'). reflexivity.
       + destruct Hs as [kvs ->]. exact Hl.
-    - rewrite (items_fn_u_read jw_tables layout_of registry load_switch activity_types actor_types link_types (ld 64) 64 HEo HLo HLs
+    - cbn [core_g].
+      rewrite (items_fn_u_read jw_tables layout_of registry load_switch activity_types actor_types link_types (ld g) g HEo HLo HLs
                  f' (x0 :: y0 :: l) ts Hokl Hf Hdist).
       rewrite (norm_many layout_of p x0 y0 l). reflexivity.
   Qed.
 
+  Lemma core_g_um v : keys_clean v = true -> um v = core_g json_dec_fuel v.
+  Proof. intros H. unfold unmarshal_to_item. rewrite H. destruct v; reflexivity. Qed.
+
+  (* the document written for a well-formed value: inside the decoder model, between depth x - 1 and 2 * depth x + 2
+     deep; and read back as the normal form when it nests no deeper than fastjson's MaxDepth (300), whatever the depth
+     of x - the fuel of the decoder model (301) is above the nesting of every such document *)
+  Theorem tree_round_doc x o : wf x = true -> tree_of jw_tables x = Some o ->
+    exists v, o = Some v /\ tree_ok (2 * ddepth x + 2) v /\ ddepth x <= S (fdepth v) /\ (fdepth v <= 300 -> um v = Some (nrm x)).
+  Proof.
+    intros Hw Ht.
+    destruct (tree_round_g (ddepth x) x o Hw (le_n _) Ht) as [v [-> [Hok [Hdeep _]]]].
+    exists v. split; [reflexivity|]. split; [exact Hok|]. split; [exact Hdeep|]. intros H300.
+    assert (Hd : ddepth x <= json_dec_fuel) by (unfold json_dec_fuel; lia).
+    destruct (tree_round_g json_dec_fuel x _ Hw Hd Ht) as [v' [E [_ [_ Hc]]]]. inversion E; subst v'.
+    rewrite (core_g_um v (proj1 Hok)). exact Hc.
+  Qed.
+
+  Theorem tree_round_depth x o : wf x = true -> ddepth x <= 149 -> tree_of jw_tables x = Some o ->
+    exists v, o = Some v /\ tree_ok (2 * ddepth x + 2) v /\ um v = Some (nrm x).
+  Proof.
+    intros Hw Hd Ht. destruct (tree_round_doc x o Hw Ht) as [v [-> [Hok [_ Hu]]]].
+    exists v. split; [reflexivity|]. split; [exact Hok|]. apply Hu. destruct Hok as [_ Hdp]. lia.
+  Qed.
+
+  Theorem tree_round x o : wf x = true -> ddepth x <= 64 -> tree_of jw_tables x = Some o ->
+    exists v, o = Some v /\ tree_ok (2 * ddepth x + 2) v /\ um v = Some (nrm x).
+  Proof.
+    intros Hw Hd Ht. destruct (tree_round_doc x o Hw Ht) as [v [-> [Hok [_ Hu]]]].
+    exists v. split; [reflexivity|]. split; [exact Hok|]. apply Hu. destruct Hok as [_ Hdp]. lia.
+  Qed.
+
   (* ---------------------------------------------------------------- bytes *)
-  Theorem json_roundtrip x : terms_raw_ok jw_tables = true ->
-    wf x = true -> ddepth x <= 64 ->
+  (* FULL STRENGTH in the depth: every well-formed value whose document nests at most 300 deep - the limit of the
+     parser the code uses (fastjson MaxDepth), beyond which UnmarshalJSON fails *)
+  Theorem json_roundtrip_doc x : terms_raw_ok jw_tables = true -> wf x = true ->
+    (forall v, tree_of jw_tables x = Some (Some v) -> fdepth v <= 300) ->
     exists b, marshal_json jw_tables x = Some b /\ b <> [] /\
       unmarshal_json jr_tables layout_of registry load_switch activity_types actor_types link_types b = Some (Ok (nrm x)).
   Proof.
-    intros Hterms Hw Hd.
+    intros Hterms Hw Hdoc.
     destruct (enc_defined (S (item_size x)) x Hw ltac:(lia)) as [o Et]. fold (tree_of jw_tables x) in Et.
-    destruct (tree_round x o Hw Hd Et) as [v [-> [[Hclean Hdepth] Hu]]].
+    destruct (tree_round_doc x o Hw Et) as [v [-> [[Hclean Hdepth] [_ Hu]]]].
+    pose proof (Hdoc v Et) as H300.
     exists (fprint v). split; [rewrite marshal_json_tree, Et; reflexivity|].
     pose proof (tree_of_wf jw_tables Hterms x v Et) as Hwfv.
     split.
     - destruct (fprint_head v Hwfv) as [c [r [E _]]]. rewrite E. discriminate.
-    - unfold unmarshal_json. rewrite (parse_doc_fprint v ltac:(lia) Hwfv), Hu. reflexivity.
+    - unfold unmarshal_json. rewrite (parse_doc_fprint v H300 Hwfv), (Hu H300). reflexivity.
   Qed.
+
+  (* a sufficient condition on the value alone: objects (leaf structs included) nest at most 149 deep *)
+  Theorem json_roundtrip_depth x : terms_raw_ok jw_tables = true ->
+    wf x = true -> ddepth x <= 149 ->
+    exists b, marshal_json jw_tables x = Some b /\ b <> [] /\
+      unmarshal_json jr_tables layout_of registry load_switch activity_types actor_types link_types b = Some (Ok (nrm x)).
+  Proof.
+    intros Hterms Hw Hd. apply (json_roundtrip_doc x Hterms Hw). intros v Ht.
+    destruct (tree_round_doc x _ Hw Ht) as [v' [E [[_ Hdp] _]]]. inversion E; subst v'. lia.
+  Qed.
+
+  Theorem json_roundtrip x : terms_raw_ok jw_tables = true ->
+    wf x = true -> ddepth x <= 64 ->
+    exists b, marshal_json jw_tables x = Some b /\ b <> [] /\
+      unmarshal_json jr_tables layout_of registry load_switch activity_types actor_types link_types b = Some (Ok (nrm x)).
+  Proof. intros Hterms Hw Hd. apply (json_roundtrip_depth x Hterms Hw). lia. Qed.
 End Round.
